@@ -6,25 +6,19 @@ import "osmcheck/core"
 // dispatch through a package-level map of constructors, plain-function helpers with grouped parameters, counted
 // loops. c03Benign2 must be silent; c03Mutants2 seed a defect into the same refactored shapes and must be reported.
 
-const c03ActionCases = "\t\tcase \"old\":\n\t\t\ta.Old = &OSM{}\n\t\t\tif err := d.DecodeElement(a.Old, &start); err != nil {\n\t\t\t\treturn err\n\t\t\t}\n\t\tcase \"new\":\n\t\t\ta.New = &OSM{}\n\t\t\tif err := d.DecodeElement(a.New, &start); err != nil {\n\t\t\t\treturn err\n\t\t\t}\n\t\tcase \"node\":\n\t\t\tn := &Node{}\n\t\t\tif err := d.DecodeElement(&n, &start); err != nil {\n\t\t\t\treturn err\n\t\t\t}\n\t\t\ta.OSM = &OSM{Nodes: Nodes{n}}\n\t\tcase \"way\":\n\t\t\tw := &Way{}\n\t\t\tif err := d.DecodeElement(&w, &start); err != nil {\n\t\t\t\treturn err\n\t\t\t}\n\t\t\ta.OSM = &OSM{Ways: Ways{w}}\n\t\tcase \"relation\":\n\t\t\tr := &Relation{}\n\t\t\tif err := d.DecodeElement(&r, &start); err != nil {\n\t\t\t\treturn err\n\t\t\t}\n\t\t\ta.OSM = &OSM{Relations: Relations{r}}\n\t\t}\n\t}\n\n\treturn nil\n}\n"
-
-const c03ActionCasesOutParam = "\t\tcase \"old\":\n\t\t\tif err := decodeBody(d, &start, &a.Old); err != nil {\n\t\t\t\treturn err\n\t\t\t}\n\t\tcase \"new\":\n\t\t\tif err := decodeBody(d, &start, &a.New); err != nil {\n\t\t\t\treturn err\n\t\t\t}\n\t\tcase \"node\":\n\t\t\tn := &Node{}\n\t\t\tif err := d.DecodeElement(&n, &start); err != nil {\n\t\t\t\treturn err\n\t\t\t}\n\t\t\ta.OSM = &OSM{Nodes: Nodes{n}}\n\t\tcase \"way\":\n\t\t\tw := &Way{}\n\t\t\tif err := d.DecodeElement(&w, &start); err != nil {\n\t\t\t\treturn err\n\t\t\t}\n\t\t\ta.OSM = &OSM{Ways: Ways{w}}\n\t\tcase \"relation\":\n\t\t\tr := &Relation{}\n\t\t\tif err := d.DecodeElement(&r, &start); err != nil {\n\t\t\t\treturn err\n\t\t\t}\n\t\t\ta.OSM = &OSM{Relations: Relations{r}}\n\t\t}\n\t}\n\n\treturn nil\n}\n\n"
-
-const c03ScanSwitch = "\t\ts.next = nil\n\t\tswitch strings.ToLower(se.Name.Local) {\n\t\tcase \"bounds\":\n\t\t\tbounds := &osm.Bounds{}\n\t\t\terr = s.decoder.DecodeElement(&bounds, &se)\n\t\t\ts.next = bounds\n\t\tcase \"node\":\n\t\t\tnode := &osm.Node{}\n\t\t\terr = s.decoder.DecodeElement(&node, &se)\n\t\t\ts.next = node\n\t\tcase \"way\":\n\t\t\tway := &osm.Way{}\n\t\t\terr = s.decoder.DecodeElement(&way, &se)\n\t\t\ts.next = way\n\t\tcase \"relation\":\n\t\t\trelation := &osm.Relation{}\n\t\t\terr = s.decoder.DecodeElement(&relation, &se)\n\t\t\ts.next = relation\n\t\tcase \"changeset\":\n\t\t\tcs := &osm.Changeset{}\n\t\t\terr = s.decoder.DecodeElement(&cs, &se)\n\t\t\ts.next = cs\n\t\tcase \"note\":\n\t\t\tn := &osm.Note{}\n\t\t\terr = s.decoder.DecodeElement(&n, &se)\n\t\t\ts.next = n\n\t\tcase \"user\":\n\t\t\tu := &osm.User{}\n\t\t\terr = s.decoder.DecodeElement(&u, &se)\n\t\t\ts.next = u\n\t\tdefault:\n\t\t\tcontinue Loop\n\t\t}\n"
-
 func c03ScanClosure(relationType, extra string) string {
-	return "\t\ts.next = nil\n\t\tdecode := func(o osm.Object) {\n\t\t\terr = s.decoder.DecodeElement(o, &se)\n" + extra + "\t\t\ts.next = o\n\t\t}\n\t\tswitch strings.ToLower(se.Name.Local) {\n\t\tcase \"bounds\":\n\t\t\tdecode(&osm.Bounds{})\n\t\tcase \"node\":\n\t\t\tdecode(&osm.Node{})\n\t\tcase \"way\":\n\t\t\tdecode(&osm.Way{})\n\t\tcase \"relation\":\n\t\t\tdecode(&osm." + relationType + "{})\n\t\tcase \"changeset\":\n\t\t\tdecode(&osm.Changeset{})\n\t\tcase \"note\":\n\t\t\tdecode(&osm.Note{})\n\t\tcase \"user\":\n\t\t\tdecode(&osm.User{})\n\t\tdefault:\n\t\t\tcontinue Loop\n\t\t}\n"
+	return "\t\ts.next = nil\n\t\tdecode := func(o osm.Object) {\n\t\t\terr = s.decoder.DecodeElement(o, &se)\n" + extra + "\t\t\ts.next = o\n\t\t}\n\t\tswitch se.Name.Local {\n\t\tcase \"bounds\":\n\t\t\tdecode(&osm.Bounds{})\n\t\tcase \"node\":\n\t\t\tdecode(&osm.Node{})\n\t\tcase \"way\":\n\t\t\tdecode(&osm.Way{})\n\t\tcase \"relation\":\n\t\t\tdecode(&osm." + relationType + "{})\n\t\tcase \"changeset\":\n\t\t\tdecode(&osm.Changeset{})\n\t\tcase \"note\":\n\t\t\tdecode(&osm.Note{})\n\t\tcase \"user\":\n\t\t\tdecode(&osm.User{})\n" + c03ScanSwitchTail
 }
 
 const c03ScanHead = "func (s *Scanner) Scan() bool {\n\tif s.err != nil {\n\t\treturn false\n\t}\n"
 
-const c03ScanLoopHead = "\nLoop:\n\tfor {\n\t\tif s.ctx.Err() != nil {\n\t\t\treturn false\n\t\t}\n\n\t\tt, err := s.decoder.Token()\n\t\tif err != nil {\n\t\t\ts.err = err\n\t\t\treturn false\n\t\t}\n\n\t\tse, ok := t.(xml.StartElement)\n\t\tif !ok {\n\t\t\tcontinue\n\t\t}\n\n"
+const c03ScanLoopHead = "\nLoop:\n\tfor {\n\t\tif s.ctx.Err() != nil {\n\t\t\treturn false\n\t\t}\n\n\t\tt, err := s.decoder.Token()\n\t\tif err != nil {\n\t\t\ts.err = err\n\t\t\treturn false\n\t\t}\n\n\t\tse, ok := t.(xml.StartElement)\n\t\tif !ok {\n\t\t\tcontinue\n\t\t}\n\n" + c03ScanRootSeen
 
 // c03ScanTable rewrites Scan into a table-driven dispatch: a package-level map from element name to constructor.
 func c03ScanTable(relationType string) (find, replace string) {
 	find = c03ScanHead + c03ScanLoopHead + c03ScanSwitch
-	table := "var objectFor = map[string]func() osm.Object{\n\t\"bounds\":    func() osm.Object { return &osm.Bounds{} },\n\t\"node\":      func() osm.Object { return &osm.Node{} },\n\t\"way\":       func() osm.Object { return &osm.Way{} },\n\t\"relation\":  func() osm.Object { return &osm." + relationType + "{} },\n\t\"changeset\": func() osm.Object { return &osm.Changeset{} },\n\t\"note\":      func() osm.Object { return &osm.Note{} },\n\t\"user\":      func() osm.Object { return &osm.User{} },\n}\n\n"
-	body := "\t\ts.next = nil\n\t\tnewObject, isObject := objectFor[strings.ToLower(se.Name.Local)]\n\t\tif !isObject {\n\t\t\tcontinue Loop\n\t\t}\n\t\tobj := newObject()\n\t\terr = s.decoder.DecodeElement(obj, &se)\n\t\ts.next = obj\n"
+	table := "var objectFor = map[string]func() osm.Object{\n\t\"bounds\":    func() osm.Object { return &osm.Bounds{} },\n\t\"node\":      func() osm.Object { return &osm.Node{} },\n\t\"way\":       func() osm.Object { return &osm.Way{} },\n\t\"relation\":  func() osm.Object { return &osm." + relationType + "{} },\n\t\"changeset\": func() osm.Object { return &osm.Changeset{} },\n\t\"note\":      func() osm.Object { return &osm.Note{} },\n\t\"user\":      func() osm.Object { return &osm.User{} },\n}\n\nvar containerElements = map[string]bool{\"osm\": true, \"osmChange\": true, \"create\": true, \"modify\": true, \"delete\": true, \"action\": true, \"old\": true, \"new\": true}\n\n"
+	body := "\t\ts.next = nil\n\t\tnewObject, isObject := objectFor[se.Name.Local]\n\t\tif !isObject {\n\t\t\tif root || containerElements[se.Name.Local] {\n\t\t\t\tcontinue Loop\n\t\t\t}\n\t\t\tif err := s.decoder.Skip(); err != nil {\n\t\t\t\ts.err = err\n\t\t\t\treturn false\n\t\t\t}\n\t\t\tcontinue Loop\n\t\t}\n\t\tobj := newObject()\n\t\terr = s.decoder.DecodeElement(obj, &se)\n\t\ts.next = obj\n"
 	return find, table + c03ScanHead + c03ScanLoopHead + body
 }
 
@@ -33,8 +27,8 @@ var c03Benign2 = []core.Mutant{
 		Replace: c03ActionCasesOutParam + "func decodeBody(d *xml.Decoder, start *xml.StartElement, dst **OSM) error {\n\t*dst = &OSM{}\n\treturn d.DecodeElement(*dst, start)\n}\n"},
 	{Name: "scan-closure-for-repeated-snippet", File: "osmxml/scanner.go", Find: c03ScanSwitch, Replace: c03ScanClosure("Relation", "")},
 	{Name: "scan-plain-function-helper-grouped-params", File: "osmxml/scanner.go",
-		Find:    "\t\tcase \"user\":\n\t\t\tu := &osm.User{}\n\t\t\terr = s.decoder.DecodeElement(&u, &se)\n\t\t\ts.next = u\n\t\tdefault:\n\t\t\tcontinue Loop\n\t\t}\n\n\t\tif err != nil {\n\t\t\ts.err = err\n\t\t\treturn false\n\t\t}\n\n\t\treturn true\n\t}\n}\n",
-		Replace: "\t\tcase \"user\":\n\t\t\ts.next, err = decodeUserElement(s.decoder, &se)\n\t\tdefault:\n\t\t\tcontinue Loop\n\t\t}\n\n\t\tif err != nil {\n\t\t\ts.err = err\n\t\t\treturn false\n\t\t}\n\n\t\treturn true\n\t}\n}\n\nfunc decodeUserElement(dec *xml.Decoder, start *xml.StartElement) (obj osm.Object, err error) {\n\tu := &osm.User{}\n\terr = dec.DecodeElement(&u, start)\n\tobj = u\n\treturn\n}\n"},
+		Find:    c03ScanUserCase + c03ScanSwitchTail + c03ScanEnd,
+		Replace: "\t\tcase \"user\":\n\t\t\ts.next, err = decodeUserElement(s.decoder, &se)\n" + c03ScanSwitchTail + c03ScanEnd + "\nfunc decodeUserElement(dec *xml.Decoder, start *xml.StartElement) (obj osm.Object, err error) {\n\tu := &osm.User{}\n\terr = dec.DecodeElement(&u, start)\n\tobj = u\n\treturn\n}\n"},
 	{Name: "action-attr-counted-loop", File: "diff.go",
 		Find:    "\tfor _, attr := range start.Attr {\n\t\tif attr.Name.Local == \"type\" {\n\t\t\ta.Type = ActionType(attr.Value)\n\t\t\tbreak\n\t\t}\n\t}\n",
 		Replace: "\tfor i := 0; i < len(start.Attr); i++ {\n\t\tif start.Attr[i].Name.Local != \"type\" {\n\t\t\tcontinue\n\t\t}\n\t\ta.Type = ActionType(start.Attr[i].Value)\n\t\tbreak\n\t}\n"},
@@ -61,7 +55,7 @@ var c03Mutants2 = []core.Mutant{
 		Replace:    c03ActionCasesOutParam + "func decodeBody(d *xml.Decoder, start *xml.StartElement, dst **OSM) error {\n\tif *dst == nil {\n\t\t*dst = &OSM{}\n\t}\n\treturn d.DecodeElement(*dst, start)\n}\n",
 		ExpectRule: "T4", ExpectConstruct: "case \"old\""},
 	{Name: "out-parameter-helper-writes-other-field", File: "diff.go", Find: c03ActionCases,
-		Replace:    "\t\tcase \"old\":\n\t\t\tif err := decodeBody(d, &start, &a.New); err != nil {\n\t\t\t\treturn err\n\t\t\t}\n" + c03ActionCasesOutParam[len("\t\tcase \"old\":\n\t\t\tif err := decodeBody(d, &start, &a.Old); err != nil {\n\t\t\t\treturn err\n\t\t\t}\n"):] + "func decodeBody(d *xml.Decoder, start *xml.StartElement, dst **OSM) error {\n\t*dst = &OSM{}\n\treturn d.DecodeElement(*dst, start)\n}\n",
+		Replace:    c03ActionOutParamOldWrong + c03ActionElems + "\n" + "func decodeBody(d *xml.Decoder, start *xml.StartElement, dst **OSM) error {\n\t*dst = &OSM{}\n\treturn d.DecodeElement(*dst, start)\n}\n",
 		ExpectRule: "T4", ExpectConstruct: "case \"old\""},
 	{Name: "closure-decodes-relation-into-way", File: "osmxml/scanner.go", Find: c03ScanSwitch, Replace: c03ScanClosure("Way", ""), ExpectRule: "T2", ExpectConstruct: "case \"relation\""},
 	{Name: "closure-rewrites-decoded-object", File: "osmxml/scanner.go", Find: c03ScanSwitch,
